@@ -45,10 +45,10 @@ func cloneScn(s *scen.Scenario) *scen.Scenario {
 }
 
 func drawC09Pair(c *fw.Ctx) *c09pair {
-	params := []string{"session-id", "protocol", "participants", "threshold", "cmp-message", "cmp-epoch", "cmp-presignature"}
+	params := []string{"session-id", "protocol", "participants", "threshold", "cmp-message", "cmp-epoch", "cmp-presignature", "cmp-derived-key"}
 	p := params[c.S.Draw(4, "param")]
 	if cmpEnabled && c.S.Bool(cmpRate(c, 15), 1000, "cmp-param") {
-		p = params[4+c.S.Draw(3, "cmp-param-kind")]
+		p = params[4+c.S.Draw(4, "cmp-param-kind")]
 	}
 	switch p {
 	case "session-id":
@@ -159,6 +159,20 @@ func drawC09Pair(c *fw.Ctx) *c09pair {
 		Y := scen.DrawScenario(c, scen.ScenarioOpts{CMPPerMille: 1000, MaxN: 3, Kinds: []scen.Kind{scen.KSign, scen.KRefresh, scen.KPresign}})
 		X := cloneScn(Y)
 		X.Mat = scen.DealCMP(c, Y.IDs, Y.T, "other-epoch")
+		return &c09pair{p, Y.Kind.String(), Y, X}
+	case "cmp-derived-key":
+		// key material that differs ONLY in the ECDSA shares / public key: a parent key and its BIP-32 child
+		// (same RID, Paillier, Pedersen, ElGamal, threshold, parties)
+		Y := scen.DrawScenario(c, scen.ScenarioOpts{CMPPerMille: 1000, MaxN: 3, Kinds: []scen.Kind{scen.KSign, scen.KRefresh, scen.KPresign}})
+		X := cloneScn(Y)
+		child, errs := Y.Mat.DeriveChild(uint32(c.S.Draw(5, "index")))
+		if len(errs) > 0 {
+			return nil
+		}
+		X.Mat = child
+		if c.S.Draw(2, "swap") == 1 {
+			Y, X = X, Y
+		}
 		return &c09pair{p, Y.Kind.String(), Y, X}
 	case "cmp-presignature":
 		Y := scen.DrawScenario(c, scen.ScenarioOpts{CMPPerMille: 1000, MaxN: 2, Kinds: []scen.Kind{scen.KPresignOnline}})
